@@ -62,6 +62,11 @@ pub struct ReqSpec {
     /// ActixQuery through FromRequest only: the request's URI is rewritten to this query string
     /// (as a path-normalising middleware would) and the extraction is made a second time
     pub query2: Option<String>,
+    /// request trimmings that are none of the extractor's business: bit 0 = an
+    /// `Accept: application/json` header, bit 1 = the request was matched by a route with a dynamic
+    /// segment (`uid = movies`), bit 2 = the body extractor is handed `Payload::None` (a body-less
+    /// request, or a second body extractor in one handler)
+    pub extras: u8,
 }
 
 impl ReqSpec {
@@ -153,6 +158,7 @@ impl Scenario {
                 "query": r.query,
                 "via_request": r.via_request,
                 "query2": r.query2,
+                "extras": r.extras,
             })).collect::<Vec<_>>(),
         })
     }
@@ -197,6 +203,7 @@ impl Scenario {
                 query: r.get("query")?.as_str()?.to_string(),
                 via_request: r.get("via_request")?.as_bool()?,
                 query2: r.get("query2").and_then(|q| q.as_str()).map(|q| q.to_string()),
+                extras: r.get("extras").and_then(|x| x.as_u64()).unwrap_or(0) as u8,
             });
         }
         Some(Scenario {
@@ -411,6 +418,7 @@ pub fn generate(seed: u64, index: u64, thorough: bool) -> Scenario {
                 axum_limit: None,
                 query: q.join("&"),
                 via_request: rng.chance(1, 2),
+                extras: if rng.chance(1, 3) { rng.below(4) as u8 } else { 0 },
                 query2: if rng.chance(1, 3) {
                     let k2 = rng.below(3);
                     let mut q2: Vec<&str> = vec![];
@@ -544,6 +552,7 @@ pub fn generate(seed: u64, index: u64, thorough: bool) -> Scenario {
             query: String::new(),
             via_request: false,
             query2: None,
+            extras: if rng.chance(1, 4) { [1u8, 1, 4, 5][rng.below(4)] } else { 0 },
         });
     }
     Scenario { seed, index, sched_seed, requests, p_spurious_pm, p_drop_pm, choices: vec![] }
